@@ -7,7 +7,7 @@ LEVEL = "model_checking"
 MANIFEST = {
     "engine": "tlc GcModel states + vhgc c22",
     "technique": "TLC enumerates every repository state reachable by a bounded history of porcelain operations over the abstract GcModel spec and computes Live (closure of references, HEAD and index, cut at shallow roots) and the keep-set of every Prune / RepackObjects option combination; go-git replays the history, runs the collection, and every object the spec keeps is read back (fresh storage, the collecting storage, decoded children, git cat-file / fsck on a sample)",
-    "text": "Exhaustive over all distinct repository states reachable in <= 2 operations (quick: 1; thorough additionally a seeded sample of 5000 of the states at depth 3, all of which TLC enumerates and checks against the model invariants) from 5 initial repositories over 19 operation kinds (stage-only add, conflict stages 1/2/3 on an unmerged path and their resolution, gitlink, commit / merge commit, soft reset, detached / branch checkout, annotated and lightweight tags on any object, ref set / delete / pack-refs, shallow cut, pack-all plain / promisor with withheld blobs, unpack, and GC itself), plus simulated histories of length 4-6; 3 Prune x 6 RepackObjects option combinations per state.",
+    "text": "Exhaustive over all distinct repository states reachable in <= 2 operations (quick: 1; thorough additionally a seeded sample of 3000 of the states at depth 3, all of which TLC enumerates and checks against the model invariants) from 5 initial repositories over 19 operation kinds (stage-only add, conflict stages 1/2/3 on an unmerged path and their resolution, gitlink, commit / merge commit, soft reset, detached / branch checkout, annotated and lightweight tags on any object, ref set / delete / pack-refs, shallow cut, pack-all plain / promisor with withheld blobs, unpack, and GC itself), plus simulated histories of length 4-6; 3 Prune x 6 RepackObjects option combinations per state.",
     "note": "Small universe (3 blobs, 2 paths + gitlink, <= 5 commits, <= 3 annotated tags, 2 branches, 2 tag refs). Liveness is what the property names: references, HEAD, index; reflogs, linked worktrees and alternates are not modelled. git's own prune/repack is the second witness for Live on a sample (spec != git => SPEC-ERROR). Age limits are the two extremes (before every object / after every object).",
 }
 INVS = "TypeOK Connected IndexPresent GcSound LastGcAdmissible ViaTotal EmitState"
@@ -53,12 +53,12 @@ def run(ctx):
         p1, n1 = dump(ctx, "gc_ex.ndjson", ex, seen)
         deep = states(ctx, "deep", 3)
         n2all = len(deep)
-        p2, n2 = dump(ctx, "gc_deep.ndjson", deep, seen, sample=5000)
+        p2, n2 = dump(ctx, "gc_deep.ndjson", deep, seen, sample=3000)
         sim = states(ctx, "sim", 6, simulate=12)
-        p3, n3 = dump(ctx, "gc_sim.ndjson", sim, seen, sample=1000)
-        ctx.vh("c22", [p1, 150, 0], pkg="vhgc", timeout=3000)
-        ctx.vh("c22", [p2, 300, 3], pkg="vhgc", timeout=3000)
-        ctx.vh("c22", [p3, 100, 0], pkg="vhgc", timeout=3000)
+        p3, n3 = dump(ctx, "gc_sim.ndjson", sim, seen, sample=600)
+        ctx.vh("c22", [p1, 80, 0], pkg="vhgc", timeout=3000)
+        ctx.vh("c22", [p2, 120, 3], pkg="vhgc", timeout=3000)
+        ctx.vh("c22", [p3, 50, 0], pkg="vhgc", timeout=3000)
         bounds = {"exhaustive_depth_all_variants": 2, "states_all_variants": n1, "exhaustive_depth_3_variants_per_state": 3,
                   "states_depth3_enumerated": n2all, "states_depth3_replayed_seeded_sample": n2, "simulated_depth": 6, "simulated_states": n3}
     else:
